@@ -3,6 +3,9 @@ import importlib
 
 RULE_MODULES = {
     'RF3': 'rules.rf3_timer',
+    'SDO': 'rules.p_sdo',
+    'NMT': 'rules.p_nmt',
+    'LSS': 'rules.p_lss',
 }
 
 
@@ -19,8 +22,56 @@ def run_rule(rule, ctx, tier):
 
 
 PROPERTIES = {
+    'C04': {
+        'rules': ['SDO'],
+        'exhaustive': True,
+        'technique': 'decision-table extraction by constant folding of the dispatcher guards over all 256 command '
+                     'bytes x 5 block states, verdict tables, return-path discipline, must-pass-through',
+        'explanation': 'RF1: the complete command-byte x block-state routing table of COSdoResponse, the object-lookup, '
+                       'length-negotiation and type-error->abort-code tables are extracted by folding the guard '
+                       'expressions and compared with CiA 301; RF2: every handler return path is NONE/ABORT/SILENT, '
+                       'ABORT paths have composed an abort frame, NONE paths stored the response command, one send per '
+                       'result in CONodeProcess, no write after refusal; RF12c: the multiplexer used for lookup is taken '
+                       'from the current frame on every path.',
+        'not_decided': 'side-effect freedom of user-supplied type functions; response payload values',
+    },
+    'C05': {
+        'rules': ['SDO'],
+        'exhaustive': True,
+        'technique': 'decision-table extraction, must-store on all paths, guard-before-use dataflow',
+        'explanation': 'Necessary conditions for "no history wedges a server": client abort 80h reaches the reset '
+                       'routine in all five block states before any state-dependent decoding (extracted table); every '
+                       'field the dispatcher consults is reset by COSdoAbortReq and COSdoReset on every path; every '
+                       'continuation handler routed to while no transfer is open tests srv->Obj before touching transfer '
+                       'state; reset communication re-initialises the servers on every path.',
+        'not_decided': 'AG EF idle over the implementation state space (model checking)',
+    },
+    'C09': {
+        'rules': ['NMT'],
+        'exhaustive': True,
+        'technique': 'decision-table extraction (NMT command x target x identifier, mode x service), must-facts at '
+                     'every transmission site, who-may-write / who-may-send rules',
+        'explanation': 'RF1: CONmtCheck folded over all command specifiers, targets and identifiers; CONmtSetMode over '
+                       'all 25 transitions; mode->services derived by folding the dispatch cascade of CONodeProcess with '
+                       'each mode mask and compared with CiA 301; RF2: LSS first, at most one claim per frame, leftover '
+                       'to the application exactly once without transmission, every COIfCanSend site is in the frozen '
+                       'table and dominated by the NMT gate of its service, boot-up frame only from INIT.',
+        'not_decided': 'sequencing over command histories beyond what table + single writer imply',
+    },
+    'C18': {
+        'rules': ['LSS'],
+        'exhaustive': True,
+        'technique': 'decision-table extraction: service table vs CiA 305, every handler folded over its finite input '
+                     'classes (step x lookup error x ordering of select/ident, all node ids, all table/index bytes)',
+        'explanation': 'RF1: COLssServices rows (specifier, allowed states, handler) against CiA 305, COLssCheck folded '
+                       'over 256 specifiers x 3 states; selective/identify step chains: right 1018h sub-index, right '
+                       'comparison operator, answer 44h/4Fh exactly on a complete in-order match; node-id 1..127|255, '
+                       'bit-timing table 0 with defined rate; RF2: handlers never return 0, positive result implies '
+                       'identifier 7E4h; RF9: stored configuration loaded before servers/boot-up on reset.',
+        'not_decided': 'sequence semantics beyond the step guards',
+    },
     'C10': {
-        'rules': ['RF3'],
+        'rules': ['RF3', 'NMT'],
         'explanation': 'Static typestate analysis of every timer handle (create/delete/store sites, all CFG paths, '
                        'callee summaries): no armed heartbeat handle is overwritten (H1) and no function leaves a '
                        'handle holding a deleted id (H2, all handles: a stale id is how another service deletes the '
